@@ -29,7 +29,7 @@ import ast
 import hashlib
 import pathlib
 from .model import Func, AnalysisError
-from .terms import Recon, subst, simplify, show, atoms, walk, _texty, mkbool, mknot, mkphi
+from .terms import Recon, subst, simplify, show, atoms, walk, _texty, mkbool, mknot, mkphi, mkcmp, is_int_term, _INT_NEG
 from .norm import Normaliser
 
 SPEC_DIR = pathlib.Path(__file__).resolve().parent / "specs"
@@ -112,6 +112,11 @@ def _renumber(t, lvnum=None, cvnum=None):
             if isinstance(x[1], str) and x[1].startswith('#'):
                 return None
             k = cvnum.get((x[1], digest(x[2]) if len(x) > 2 else None))
+            if k is None:
+                # the initial value below has been renumbered already (allocation ids): a name carried by one loop only is found by name
+                ks = [v for (nm, _), v in cvnum.items() if nm == x[1]]
+                if len(ks) == 1:
+                    k = ks[0]
             return ('carried', f"#c{k}" if k is not None else num('d', (x[1], x[2] if len(x) > 2 else None)),) + tuple(x[2:])
         if h == 'undef':
             return ('undef', '#')
@@ -254,6 +259,9 @@ def _bool_atoms(c, out):
         _bool_atoms(c[2], out)
     elif c[0] == 'cmp' and c[1] in _POS:
         out.setdefault(digest(('cmp', _POS[c[1]], c[2], c[3])), ('cmp', _POS[c[1]], c[2], c[3]))
+    elif c[0] == 'cmp' and c[1] in _INT_NEG and is_int_term(c[2]) and is_int_term(c[3]):
+        a = mkcmp(_INT_NEG[c[1]], c[2], c[3])           # integer operands: a <= b is exactly not a > b
+        out.setdefault(digest(a), a)
     elif c[0] == 'const' and isinstance(c[1], bool):
         pass
     else:
@@ -269,6 +277,8 @@ def _bool_eval(c, val):
         return not _bool_eval(c[2], val)
     if c[0] == 'cmp' and c[1] in _POS:
         return not val[digest(('cmp', _POS[c[1]], c[2], c[3]))]
+    if c[0] == 'cmp' and c[1] in _INT_NEG and is_int_term(c[2]) and is_int_term(c[3]):
+        return not val[digest(mkcmp(_INT_NEG[c[1]], c[2], c[3]))]
     if c[0] == 'const' and isinstance(c[1], bool):
         return c[1]
     return val[digest(c)]
@@ -378,10 +388,19 @@ def _cond_key(conds, lvnum=None, cvnum=None):
 
 class Summary:
     def __init__(self, prog, eff, f: Func):
+        from . import terms as _terms
+        _terms.INT_PARAMS = _terms.int_params(f.node)
+        try:
+            self._build(prog, eff, f)
+        finally:
+            _terms.INT_PARAMS = set()
+
+    def _build(self, prog, eff, f: Func):
         self.f = f
         r = Recon(prog, eff, f).run()
         self.loops = 0
         self.entries = []       # (kind, condkey, data-as-term)
+        rawconds = {}
         lvnum = {}
         for ev in r.events:
             if ev.kind == 'loop_enter':
@@ -470,6 +489,7 @@ class Summary:
             else:
                 data = ('const', None)
             self.entries.append((k, _cond_key(ev.conds, lvnum, cvnum), norm(data, lvnum, cvnum), ev.lineno, id(ev)))
+            rawconds[id(ev)] = [(norm(c, lvnum, cvnum), pol) for c, pol in ev.conds if not (isinstance(c, tuple) and c and c[0] == 'inloop')]
             if k == 'return':
                 self._raw_returns.append(ev)
         # the returns outside loops are one result: `if c: return a` followed by `return b` is `return a if c else b`
@@ -486,6 +506,45 @@ class Summary:
             keep = {id(e) for _, e in top}
             self.entries = [x for x in self.entries if x[4] not in keep]
             self.entries.append(('return', cond_key([]), norm(val, lvnum, cvnum), top[-1][1].lineno, None))
+        # the same effect written in two arms (`if a: X else: if b: X`) is one effect under the disjunction of its conditions (`if a or b: X`),
+        # provided the two conditions exclude each other (otherwise it happens twice)
+        def conj(cs):
+            t = None
+            for c, pol in cs:
+                cc = c if pol else mknot(c)
+                t = cc if t is None else mkbool('And', t, cc)
+            return t if t is not None else ('const', True)
+        groups = {}
+        for x in self.entries:
+            if x[4] is not None and x[0] in ('store', 'deepstore', 'attrstore', 'carry', 'expr', 'raise', 'break', 'continue', 'yield'):
+                groups.setdefault((x[0], digest(x[2])), []).append(x)
+        drop, add = set(), []
+        for key, xs in groups.items():
+            if len(xs) < 2:
+                continue
+            terms_ = [conj(rawconds[x[4]]) for x in xs]
+
+            def exclusive(a, b):
+                k_ = cond_key([(mkbool('And', a, b), True)])
+                return len(k_) == 2 and isinstance(k_[1], tuple) and not any(k_[1])
+            clusters = []           # greedy: an occurrence joins the first cluster all of whose members it excludes
+            for i_ in range(len(xs)):
+                for cl in clusters:
+                    if all(exclusive(terms_[i_], terms_[j_]) for j_ in cl):
+                        cl.append(i_)
+                        break
+                else:
+                    clusters.append([i_])
+            for cl in clusters:
+                if len(cl) < 2:
+                    continue
+                t = terms_[cl[0]]
+                for j_ in cl[1:]:
+                    t = mkbool('Or', t, terms_[j_])
+                drop |= {xs[j_][4] for j_ in cl}
+                add.append((xs[cl[0]][0], cond_key([(t, True)]), xs[cl[0]][2], xs[cl[0]][3], None))
+        if drop:
+            self.entries = [x for x in self.entries if x[4] not in drop] + add
         self.entries = [x[:4] for x in self.entries]
         self.calls = []         # (callee qname, condkey, call term, lineno): every call evaluated, wherever it is written
         for t, conds, node in r.calls:
